@@ -5,7 +5,9 @@ usage: seeded_matrix.py [--all] [--only ID ...] [--seed N]
   default: each seeded change is run against the check of the property it
   breaks; --all runs every check against every change (slow).
 Results go to seeded/<id>/meta.json ("detected_by") and seeded/MATRIX.json.
-The scratch worktree lives outside /repo and /verif and is removed afterwards.
+The scratch worktree lives outside /repo and /verif and is removed afterwards;
+the checks run from a frozen snapshot of /verif's code (tools/_snapshot.py), so
+/verif/evidence is never written by a run against a patched tree.
 """
 import argparse
 import json
@@ -16,6 +18,9 @@ import tempfile
 import time
 
 HERE = os.path.dirname(os.path.dirname(os.path.abspath(__file__)))
+sys.path.insert(0, os.path.join(HERE, "tools"))
+import _snapshot  # noqa: E402
+
 ALL = ["C%02d" % i for i in range(1, 21)]
 
 
@@ -35,6 +40,7 @@ def main():
     if args.only:
         seeded = [d for d in seeded if d in args.only]
     matrix_path = os.path.join(HERE, "seeded", "MATRIX.json")
+    snap = _snapshot.make()
     matrix = json.load(open(matrix_path)) if os.path.exists(matrix_path) else {}
     for sid in seeded:
         sdir = os.path.join(HERE, "seeded", sid)
@@ -57,8 +63,8 @@ def main():
             env = dict(os.environ, VERIF_REPO=wt, VERIF_SEED=args.seed)
             for pid in checks:
                 t0 = time.time()
-                r = run([os.path.join(HERE, "run_check.py"), pid, "--tier",
-                         "quick"], env=env, cwd=HERE)
+                r = run([os.path.join(snap, "run_check.py"), pid, "--tier",
+                         "quick"], env=env, cwd=snap)
                 viol = [ln for ln in r.stdout.splitlines()
                         if ln.startswith("VIOLATION")]
                 first = ""
@@ -90,7 +96,7 @@ def main():
                    "pointing at it, VERIF_SEED=%s" % args.seed}
         json.dump(meta, open(os.path.join(sdir, "meta.json"), "w"), indent=1)
         json.dump(matrix, open(matrix_path, "w"), indent=1, sort_keys=True)
-    subprocess.run(["rm", "-rf", os.path.join(HERE, "replays", "found")])
+    _snapshot.remove(snap)
     return 0
 
 
